@@ -70,12 +70,40 @@ Definition run_w (op : Z) (a b : list (list Z)) (amp : list Z) (k : Z) : list (l
 
 End RunW.
 
+(* ------------------------------------------------------------------------- *)
+(* `I` lines: the identity impls of the conversion traits (lib.rs, frame/mod.rs, boxed.rs)
+     impl FromSampleSlice<'a, S> for &'a [S]   { fn from_sample_slice(slice) -> Option<Self> { Some(slice) } }
+     impl ToSampleSlice<'a, S> for &'a [S]     { fn to_sample_slice(self) -> &'a [S] { self } }
+     impl FromFrameSlice<'a, F> for &'a [F]    { fn from_frame_slice(slice) -> Self { slice } }
+     impl ToFrameSlice<'a, F> for &'a [F]      { fn to_frame_slice(self) -> Option<&'a [F]> { Some(self) } }
+   (and the Mut / Box forms): the result IS the argument - same reference, nothing allocated or freed - followed by
+   the free-function forms of the real boxed conversions with N = 2 (SliceRun.run_boxed_once). *)
+Definition ident_ref (r : Slice.sref) : Slice.sref := r.
+
+Definition run_ident (sz : nat) (d : list Z) : list (list Z) :=
+  let m := {| Slice.base := SliceRun.BASE_V; Slice.cells := d |} in
+  let sr := ident_ref (Slice.sample_ref m) in
+  let os := SliceRun.enc_sview m (Ok (sr, d)) in
+  let osh := SliceRun.enc_sview_hdr m (Ok (sr, d)) in
+  let K := (length d / 2)%nat in
+  let fs := Slice.chunks 2 K d in
+  let f0 := Slice.frame_mem SliceRun.BASE_F fs in
+  let fr := ident_ref (Slice.frame_ref SliceRun.BASE_F fs) in
+  let of_ := SliceRun.enc_fview f0 (Ok (Some (fr, fs))) in
+  let ofh := SliceRun.enc_fview_hdr f0 (Ok (Some (fr, fs))) in
+  (* boxed identities: same block, live-byte delta 0 *)
+  let bs := 1 :: SliceRun.same m sr :: SliceRun.zn (Slice.len sr) :: 0 :: d in
+  let bf := 1 :: SliceRun.same f0 fr :: SliceRun.zn (Slice.len fr) :: 0 :: List.concat fs in
+  [os; os; osh; osh; of_; of_; ofh; ofh; bs; bs; bf; bf] ++ SliceRun.run_boxed_once 2 sz d.
+
 Inductive xcase :=
+| XI (sz : Z) (d : list Z)
 | XZ (c : SliceRun.zcase)
 | XW (mode op fmt shape : Z) (a b : list (list Z)) (amp : list Z) (k : Z).
 
 Definition run_xcase (c : xcase) : list (list Z) :=
   match c with
+  | XI sz d => run_ident (Z.to_nat sz) d
   | XZ c' => SliceRun.run_case c'
   | XW mo op fc shape a b amp k =>
     match sfmt_of_code fc with
